@@ -81,9 +81,10 @@ Section FLe.
       destruct (erel_var p cp n G _ e ce v _ He Hg) as [val [pv [El [Ec [Hv Hd]]]]].
       { apply (Sof_in (mkcb (new_id v) CPrd (compile_ty ty0))). apply fvt_var. reflexivity. }
       unfold tkind in Hk1. simpl in Hk1. rewrite (is_codata_compile p cp Hcod), Hk1 in Hd. simpl in Hd.
-      exists pv. split; [|split; [|split]].
+      exists pv. split; [|split; [|split; [|split]]].
       + intros m. simpl. rewrite Ec. reflexivity.
       + intros v0 s0 ty1. simpl. rewrite Ec. reflexivity.
+      + intros cd tag vals. simpl. rewrite Ec. reflexivity.
       + (* the thunk of a variable behaves like the variable's value *)
         apply Co_intro. intros j Hj x args args' k kv Hargs Hdf Hk.
         eapply sim_fstep; [reflexivity|].
@@ -249,8 +250,8 @@ Section FLe.
     - intros n Hn G cur ty' st c st' e ce Hcc Hf Hkd Hk1 Hws Hnc Hl HG Hbn Hty He.
       rewrite cmp_unfold in Hcc. simpl in Hf, Hkd, Hws, Hnc, Hbn.
       change (tkind p (FParen t)) with (tkind p t) in *.
-      destruct (Ht n Hn G cur ty' st c st' e ce Hcc Hf Hkd Hk1 Hws Hnc Hl HG Hbn Hty He) as [pv [H1 [H2 [H3 H4]]]].
-      exists pv. split; [exact H1|]. split; [exact H2|]. split.
+      destruct (Ht n Hn G cur ty' st c st' e ce Hcc Hf Hkd Hk1 Hws Hnc Hl HG Hbn Hty He) as [pv [H1 [H2 [H2' [H3 H4]]]]].
+      exists pv. split; [exact H1|]. split; [exact H2|]. split; [exact H2'|]. split.
       + (* one more source step: the parenthesis *)
         apply Co_intro. intros j Hj x args args' k kv Hargs Hdf Hk.
         eapply sim_fstep; [reflexivity|].
